@@ -69,8 +69,8 @@ func c29Units() []c29Unit {
 	}
 }
 
-// terminators; "loop" needs the pc of its JUMPDEST and is built per program.
-var c29Terms = []string{"STOP", "REVERT", "INVALID", "UNDERFLOW", "BADJUMP", "LOOP", "RETURN1"}
+// terminators
+var c29Terms = []string{"STOP", "REVERT", "INVALID", "UNDERFLOW", "BADJUMP", "OOG", "RETURN1"}
 
 func c29Callee(units []c29Unit, seq []int, term string) []byte {
 	p := progx.New()
@@ -88,9 +88,9 @@ func c29Callee(units []c29Unit, seq []int, term string) []byte {
 		p.Op(progx.POP)
 	case "BADJUMP":
 		p.Push(1).Op(progx.JUMP)
-	case "LOOP":
-		at := p.Len()
-		p.Op(progx.JUMPDEST).Op(progx.PUSH2, byte(at>>8), byte(at)).Op(progx.JUMP)
+	case "OOG":
+		// a memory expansion no gas limit used here can pay for: out of gas at once, without looping
+		p.Push(1).PushBytes([]byte{1, 0, 0, 0, 0}).Op(progx.MSTORE)
 	case "RETURN1":
 		p.Return(0, 1)
 	}
@@ -127,7 +127,7 @@ func c29Caller(rs progx.RuleSet, wrapper string, callee []byte, innerGas uint64)
 		p.Create(progx.CREATE2, callee, 1, 1)
 	}
 	p.Op(progx.POP)
-	p.Sstore(2, 1) // epilogue: A goes on and succeeds
+	p.Sstore(3, 4) // epilogue: A goes on (modifies an existing slot: affordable from the 1/64 retained after a halting inner frame) and succeeds
 	return p.Op(progx.STOP).Bytes()
 }
 
@@ -403,7 +403,7 @@ func newC29Env(rs progx.RuleSet) (*c29Env, error) {
 	return e, nil
 }
 
-const c29TxGas = 3_000_000
+const c29TxGas = 2_000_000
 
 // run executes one transaction-like call origin -> A (or, for DIRECT, the callee
 // program itself as the outermost frame) and returns the first violation.
@@ -466,13 +466,13 @@ func c29ReplayTarget() *c29Case {
 
 func TestVerif_C29(t *testing.T) {
 	mc.Run(t, "C29", func(r *mc.R) {
-		forks := mc.Pick(r, []string{"Byzantium", "Istanbul", "Berlin", "Cancun", "Amsterdam"}, progx.ForkNames[4:])
+		forks := mc.Pick(r, []string{"Byzantium", "Berlin", "Cancun", "Amsterdam"}, progx.ForkNames[4:])
 		maxUnits := mc.Pick(r, 2, 3)
 		gases := []uint64{0, 30000}
 		units := c29Units()
 		r.Rule("callee = every sequence of <=K units from the effectful alphabet (SSTORE clear/modify/set, SLOAD, TSTORE, LOG1, CALL with/without value to a contract / a new account / a precompile, STATICCALL, DELEGATECALL, CALLCODE, CREATE, CREATE2, BALANCE of a cold account, SELFDESTRUCT) " +
-			"+ terminator {STOP, REVERT, INVALID, stack underflow, bad jump, infinite loop (out of gas), RETURN 1 byte}; caller A (own SSTORE with refund, LOG, warm slot, TSTORE) wraps it with {STATICCALL, CALL+value, DELEGATECALL, CALLCODE+value, CREATE+value (callee = initcode), CREATE2+value, or the callee is the outermost frame} " +
-			"with inner gas {all, 30000}; per rule set. Every frame at every depth is checked at its exit against a deep copy of the state taken at its entry. distinct = distinct (rule set, wrapper, gas, callee code)")
+			"+ terminator {STOP, REVERT, INVALID, stack underflow, bad jump, out of gas (MSTORE at 2^32), RETURN 1 byte}; caller A (own SSTORE with refund, LOG, warm slot, TSTORE) wraps it with {STATICCALL, CALL+value, DELEGATECALL, CALLCODE+value, CREATE+value (callee = initcode), CREATE2+value, or the callee is the outermost frame} " +
+			"with inner gas {all, 30000 (quick tier: 30000 only for callees of <=1 unit)}; per rule set (CREATE2 wrapper from Constantinople). Every frame at every depth is checked at its exit against a deep copy of the state taken at its entry. distinct = distinct (rule set, wrapper, gas, callee code)")
 		r.Bound("forks", forks)
 		r.Bound("max_units", maxUnits)
 		r.Bound("unit_alphabet", len(units))
@@ -495,6 +495,9 @@ func TestVerif_C29(t *testing.T) {
 		const chunk = 64
 		for _, f := range forks {
 			for _, w := range c29Wrappers {
+				if w == "CREATE2" && !progx.Fork(f).At("Constantinople") {
+					continue // the caller itself must be a valid program of the rule set
+				}
 				for lo := 0; lo < len(seqs); lo += chunk {
 					shards = append(shards, shard{f, w, lo, min(lo+chunk, len(seqs))})
 				}
@@ -529,6 +532,9 @@ func TestVerif_C29(t *testing.T) {
 					for _, g := range gases {
 						if sh.wrapper == "DIRECT" && g != 0 {
 							continue
+						}
+						if g != 0 && r.Quick() && len(seq) > 1 {
+							continue // quick tier: the limited-gas variant only for callees of <=1 unit
 						}
 						if target != nil && (target.Term != term || target.Gas != g || strings.Join(target.Units, ",") != strings.Join(names, ",")) {
 							continue
